@@ -516,14 +516,18 @@ func (c *Ctx) c02Stores() {
 		okR, off := onlyKinds(os, "msgsource")
 		// writer: bufio.NewWriter(os.Create(rawPath))
 		wOK := false
-		if w, ok := eng.Unwrap(cp.Call.Args[0]).(*ssa.Call); ok && eng.CalleeName(w.Common()) == "bufio.NewWriter" {
-			if e, ok := eng.Unwrap(w.Call.Args[0]).(*ssa.Extract); ok {
+		// the writer (possibly a field of a carrier built by a package constructor) resolves
+		// to bufio.NewWriter over the file os.Create returned for the raw path
+		wv, wenv := ctxValue(eng.Unwrap(cp.Call.Args[0]), nil)
+		if w, ok := eng.Unwrap(wv).(*ssa.Call); ok && eng.CalleeName(w.Common()) == "bufio.NewWriter" {
+			fv, fenv := ctxValue(eng.Unwrap(w.Call.Args[0]), wenv)
+			if e, ok := eng.Unwrap(fv).(*ssa.Extract); ok {
 				if cr, ok := e.Tuple.(*ssa.Call); ok && eng.CalleeName(cr.Common()) == "os.Create" {
 					if rc, ok := eng.Unwrap(cr.Call.Args[0]).(*ssa.Call); ok && eng.StaticCallee(rc.Common()) == rawPath {
 						wOK = true
 					}
-					if fm := c.fsModel(); fm != nil && fm.pathClass(cr.Call.Args[0], 0) == "raw" {
-						wOK = true // through a local variable (also when captured by a cleanup closure)
+					if fm := c.fsModel(); fm != nil && fm.classIn(cr.Call.Args[0], fenv, 0) == "raw" {
+						wOK = true // through a local variable, a parameter or a carrier field
 					}
 				}
 			}
@@ -539,6 +543,7 @@ func (c *Ctx) c02Stores() {
 		// Fsize = copy count
 		okSz := false
 		isCount := func(v ssa.Value) bool {
+			v = p.Actual(v) // the count may reach the store through a helper's parameter
 			if e, ok := v.(*ssa.Extract); ok && e.Tuple == ssa.Value(cp) && e.Index == 0 {
 				return true
 			}
@@ -684,6 +689,19 @@ func (c *Ctx) c02Read() {
 						if eng.CalleeName(x.Common()) == "io.Copy" && len(x.Call.Args) == 2 {
 							copies = append(copies, p.InstrPos(x))
 						} else if x.Call.IsInvoke() && x.Call.Method.Name() == "Close" {
+						} else if g := eng.StaticCallee(x.Common()); g != nil && eng.InModule(g) && len(g.Blocks) > 0 && g.Parent() == nil && len(seen) < 200 {
+							// a helper of the handler package that streams the reader: its
+							// parameter is followed like the reader itself
+							passed := false
+							for i, a := range x.Call.Args {
+								if a == v && i < len(g.Params) {
+									passed = true
+									visit(g.Params[i])
+								}
+							}
+							if !passed {
+								other = append(other, eng.CalleeName(x.Common())+" at "+p.InstrPos(x))
+							}
 						} else {
 							other = append(other, eng.CalleeName(x.Common())+" at "+p.InstrPos(x))
 						}
@@ -731,22 +749,78 @@ func (c *Ctx) c02Pop3() {
 		for _, sc := range scanners {
 			n++
 			cons := shortFn(fn)
+			// the scanner may be handed on: to a helper of the package, or to a callback the
+			// callers of fn supply (relay(scanner)); the scan loop then lives there
+			type scanUse struct {
+				fn  *ssa.Function
+				v   ssa.Value
+				via ssa.Instruction // the call in fn that hands the scanner on (nil: fn itself)
+			}
+			uses := []scanUse{{fn, sc, nil}}
+			for _, ref := range *sc.Referrers() {
+				call, ok := ref.(*ssa.Call)
+				if !ok || call.Call.IsInvoke() {
+					continue
+				}
+				for ai, a := range call.Call.Args {
+					if a != ssa.Value(sc) {
+						continue
+					}
+					if g := eng.StaticCallee(call.Common()); g != nil {
+						if eng.InModule(g) && len(g.Blocks) > 0 && ai < len(g.Params) {
+							uses = append(uses, scanUse{g, g.Params[ai], call})
+						}
+						continue
+					}
+					if prm, ok := call.Call.Value.(*ssa.Parameter); ok && prm.Parent() == fn {
+						pi := eng.ParamIndex(prm)
+						for _, cs := range p.StaticCallSites(fn) {
+							if pi < 0 || pi >= len(cs.Args) {
+								continue
+							}
+							if h, _, ok := eng.FuncValueOf(cs.Args[pi]); ok && h != nil && ai < len(h.Params) {
+								uses = append(uses, scanUse{h, h.Params[ai], call})
+							}
+						}
+					}
+				}
+			}
 			// (a) Buffer call with a large limit dominating the first Scan
 			var scan, buf *ssa.Call
+			var scanAt ssa.Instruction
 			for _, ref := range *sc.Referrers() {
 				if call, ok := ref.(*ssa.Call); ok {
 					switch eng.CalleeName(call.Common()) {
-					case "(*bufio.Scanner).Scan":
-						scan = call
 					case "(*bufio.Scanner).Buffer":
 						buf = call
+					}
+				}
+			}
+			for _, u := range uses {
+				for _, ref := range *u.v.Referrers() {
+					if call, ok := ref.(*ssa.Call); ok && eng.CalleeName(call.Common()) == "(*bufio.Scanner).Scan" {
+						if scan == nil || u.via == nil {
+							scan = call
+							scanAt = call
+							if u.via != nil {
+								scanAt = u.via
+							}
+						}
+					}
+				}
+			}
+			if scan != nil && buf != nil {
+				// every hand-over must come after the limit was raised as well
+				for _, u := range uses {
+					if u.via != nil && !eng.Dominates(buf, u.via) {
+						scanAt = u.via
 					}
 				}
 			}
 			switch {
 			case scan == nil:
 				r.Undecided("C02/POP3/lines", cons+":limit", p.InstrPos(sc), "scanner is never scanned")
-			case buf == nil || !eng.Dominates(buf, scan):
+			case buf == nil || !eng.Dominates(buf, scanAt):
 				r.Bad("C02/POP3/lines", cons+":limit", p.InstrPos(sc), "bufio.Scanner over the message source keeps the default token limit (64 KiB): a longer line makes Scan fail, the response ends with '.' followed by -ERR and the client receives a truncated message")
 			default:
 				if k, ok := eng.ConstInt(buf.Call.Args[2]); ok && k >= 1<<30 {
@@ -758,111 +832,131 @@ func (c *Ctx) c02Pop3() {
 				}
 			}
 			// (b) each send inside the scan loop sends φ(text, "."+text) under HasPrefix
-			var text *ssa.Call
-			for _, ref := range *sc.Referrers() {
-				if call, ok := ref.(*ssa.Call); ok && eng.CalleeName(call.Common()) == "(*bufio.Scanner).Text" {
-					text = call
+			checkStuffing := func(fn *ssa.Function, scv ssa.Value, cons string, required bool) {
+				var text *ssa.Call
+				for _, ref := range *scv.Referrers() {
+					if call, ok := ref.(*ssa.Call); ok && eng.CalleeName(call.Common()) == "(*bufio.Scanner).Text" {
+						text = call
+					}
 				}
-			}
-			if text == nil {
-				r.Bad("C02/POP3/lines", cons+":stuffing", p.InstrPos(sc), "scanned text is not used")
-				continue
-			}
-			nSend, okStuff := 0, true
-			why := ""
-			eng.EachInstr(fn, func(in ssa.Instruction) {
-				call, ok := in.(*ssa.Call)
-				if !ok || eng.StaticCallee(call.Common()) != send {
+				if text == nil {
+					if required {
+						r.Bad("C02/POP3/lines", cons+":stuffing", p.InstrPos(sc), "scanned text is not used")
+					}
 					return
 				}
-				arg := sendTextArg(call)
-				if arg == nil {
-					return
-				}
-				if _, isC := arg.(*ssa.Const); isC {
-					return
-				}
-				// dot-stuffing extracted into a helper: s.send(dotStuff(line))
-				if hc, ok := arg.(*ssa.Call); ok {
-					if rets, g := eng.ReturnedValues(hc, 0); g != nil && len(hc.Call.Args) >= 1 {
-						for ai, a := range hc.Call.Args {
-							if a != ssa.Value(text) || ai >= len(g.Params) {
-								continue
+				nSend, okStuff := 0, true
+				why := ""
+				eng.EachInstr(fn, func(in ssa.Instruction) {
+					call, ok := in.(*ssa.Call)
+					if !ok || eng.StaticCallee(call.Common()) != send {
+						return
+					}
+					arg := sendTextArg(call)
+					if arg == nil {
+						return
+					}
+					if _, isC := arg.(*ssa.Const); isC {
+						return
+					}
+					// dot-stuffing extracted into a helper: s.send(dotStuff(line))
+					if hc, ok := arg.(*ssa.Call); ok {
+						if rets, g := eng.ReturnedValues(hc, 0); g != nil && len(hc.Call.Args) >= 1 {
+							for ai, a := range hc.Call.Args {
+								if a != ssa.Value(text) || ai >= len(g.Params) {
+									continue
+								}
+								nSend++
+								if why2 := stuffingShape(rets, g.Params[ai], g); why2 != "" {
+									okStuff, why = false, why2+" (in "+shortFn(g)+")"
+								}
+								return
 							}
-							nSend++
-							if why2 := stuffingShape(rets, g.Params[ai], g); why2 != "" {
-								okStuff, why = false, why2+" (in "+shortFn(g)+")"
-							}
-							return
 						}
 					}
-				}
-				// does the argument derive from text?
-				ph, isPhi := arg.(*ssa.Phi)
-				if arg == ssa.Value(text) {
+					// does the argument derive from text?
+					ph, isPhi := arg.(*ssa.Phi)
+					if arg == ssa.Value(text) {
+						nSend++
+						okStuff, why = false, "line sent without dot-stuffing at "+p.InstrPos(call)
+						return
+					}
+					if !isPhi {
+						return
+					}
+					derives := false
+					for _, e := range ph.Edges {
+						if e == ssa.Value(text) {
+							derives = true
+						}
+					}
+					if !derives {
+						return
+					}
 					nSend++
-					okStuff, why = false, "line sent without dot-stuffing at "+p.InstrPos(call)
-					return
-				}
-				if !isPhi {
-					return
-				}
-				derives := false
-				for _, e := range ph.Edges {
-					if e == ssa.Value(text) {
-						derives = true
-					}
-				}
-				if !derives {
-					return
-				}
-				nSend++
-				stuffed := false
-				for i, e := range ph.Edges {
-					if e == ssa.Value(text) {
-						continue
-					}
-					b, ok := e.(*ssa.BinOp)
-					if !ok || b.Op != token.ADD || b.Y != ssa.Value(text) {
-						okStuff, why = false, "unexpected line transformation at "+p.InstrPos(call)
-						continue
-					}
-					if s, isC := eng.ConstString(b.X); !isC || s != "." {
-						okStuff, why = false, "stuffing prefix is not \".\""
-						continue
-					}
-					// the edge must be under HasPrefix(text, ".") true
-					pred := ph.Block().Preds[i]
-					under := false
-					for _, bb := range fn.Blocks {
-						for k := 0; k < len(bb.Succs) && len(bb.Succs) == 2; k++ {
-							cv, pol, ok := eng.CondTruth(bb, k)
-							if !ok || !pol || !eng.EdgeDominates(bb, k, pred) {
-								continue
-							}
-							if hc, ok := cv.(*ssa.Call); ok && eng.CalleeName(hc.Common()) == "strings.HasPrefix" && hc.Call.Args[0] == ssa.Value(text) {
-								if s, isC := eng.ConstString(hc.Call.Args[1]); isC && s == "." {
-									under = true
+					stuffed := false
+					for i, e := range ph.Edges {
+						if e == ssa.Value(text) {
+							continue
+						}
+						b, ok := e.(*ssa.BinOp)
+						if !ok || b.Op != token.ADD || b.Y != ssa.Value(text) {
+							okStuff, why = false, "unexpected line transformation at "+p.InstrPos(call)
+							continue
+						}
+						if s, isC := eng.ConstString(b.X); !isC || s != "." {
+							okStuff, why = false, "stuffing prefix is not \".\""
+							continue
+						}
+						// the edge must be under HasPrefix(text, ".") true
+						pred := ph.Block().Preds[i]
+						under := false
+						for _, bb := range fn.Blocks {
+							for k := 0; k < len(bb.Succs) && len(bb.Succs) == 2; k++ {
+								cv, pol, ok := eng.CondTruth(bb, k)
+								if !ok || !pol || !eng.EdgeDominates(bb, k, pred) {
+									continue
+								}
+								if hc, ok := cv.(*ssa.Call); ok && eng.CalleeName(hc.Common()) == "strings.HasPrefix" && hc.Call.Args[0] == ssa.Value(text) {
+									if s, isC := eng.ConstString(hc.Call.Args[1]); isC && s == "." {
+										under = true
+									}
 								}
 							}
 						}
+						if !under {
+							okStuff, why = false, "'.'+line is not selected by strings.HasPrefix(line, \".\")"
+						} else {
+							stuffed = true
+						}
 					}
-					if !under {
-						okStuff, why = false, "'.'+line is not selected by strings.HasPrefix(line, \".\")"
-					} else {
-						stuffed = true
+					if !stuffed && okStuff {
+						okStuff, why = false, "no dot-stuffed alternative for the sent line"
+					}
+				})
+				if nSend == 0 {
+					r.Bad("C02/POP3/lines", cons+":stuffing", p.InstrPos(text), "scanned lines are never sent")
+				} else if okStuff {
+					r.Ok("C02/POP3/lines", cons+":stuffing", p.InstrPos(text), "each line is sent as line or '.'+line under HasPrefix(line, \".\")")
+				} else {
+					r.Bad("C02/POP3/lines", cons+":stuffing", p.InstrPos(text), "%s: a body line beginning with '.' is altered or ends the response early", why)
+				}
+			}
+			nText := 0
+			for _, u := range uses {
+				for _, ref := range *u.v.Referrers() {
+					if call, ok := ref.(*ssa.Call); ok && eng.CalleeName(call.Common()) == "(*bufio.Scanner).Text" {
+						nText++
+						break
 					}
 				}
-				if !stuffed && okStuff {
-					okStuff, why = false, "no dot-stuffed alternative for the sent line"
+			}
+			for _, u := range uses {
+				ucons := cons
+				if u.via != nil {
+					ucons = shortFn(u.fn)
 				}
-			})
-			if nSend == 0 {
-				r.Bad("C02/POP3/lines", cons+":stuffing", p.InstrPos(text), "scanned lines are never sent")
-			} else if okStuff {
-				r.Ok("C02/POP3/lines", cons+":stuffing", p.InstrPos(text), "each line is sent as line or '.'+line under HasPrefix(line, \".\")")
-			} else {
-				r.Bad("C02/POP3/lines", cons+":stuffing", p.InstrPos(text), "%s: a body line beginning with '.' is altered or ends the response early", why)
+				checkStuffing(u.fn, u.v, ucons, u.via == nil && nText == 0)
 			}
 			// (c) terminator on every exit after the scanner was created
 			isTerm := func(in ssa.Instruction) bool {
